@@ -159,3 +159,48 @@ func Harness_C16_signed_by_m_distinct_keys() {
 	}
 	assert(found, "payer-is-a-signer-account")
 }
+
+// Harness_C16_many_keys: one multi-signature set with `nkeys` keys (more than 8) and threshold 2: the two
+// signatures must come from two DISTINCT keys wherever those keys sit in the list.
+func Harness_C16_many_keys() {
+	n := param("nkeys")
+	raw := []byte{0, byte(types.InvokeNeo)}
+	raw = append(raw, make([]byte, 4+8+8)...)
+	payer := nondetBytes("payer", 20)
+	raw = append(raw, payer...)
+	raw = append(raw, 1, nondetU8("code"), 0) // code, attributes
+	raw = append(raw, 1)                      // one signature set
+	var set c16Set
+	set.multi, set.m = true, 2
+	var inv []byte
+	for j := 0; j < 2; j++ {
+		sg := nondetBytes("sig", 4)
+		set.sigs = append(set.sigs, sg)
+		inv = append(inv, 4)
+		inv = append(inv, sg...)
+	}
+	ver := []byte{byte(0x50 + set.m)}
+	for j := 0; j < n; j++ {
+		kb := nondetBytes("keyblob", 4)
+		set.blobs = append(set.blobs, kb)
+		ver = append(ver, 4)
+		ver = append(ver, kb...)
+	}
+	ver = append(ver, byte(0x50+n), 0xae)
+	raw = append(raw, byte(len(inv)))
+	raw = append(raw, inv...)
+	raw = append(raw, byte(len(ver)))
+	raw = append(raw, ver...)
+	tx, err := types.TransactionFromRawBytes(raw)
+	assert(err == nil, "built-transaction-decodes")
+	if err != nil {
+		return
+	}
+	inKF := knownFinding("C16-duplicate-key-in-multisig-script", c16HasDuplicateKey(set))
+	_ = inKF
+	if checkTransactionSignatures(tx) != nil {
+		return
+	}
+	cover("accepted")
+	assert(c16DistinctValid(set, tx.Hash()) >= set.m, "every-set-has-m-distinct-valid-signers")
+}
